@@ -26,6 +26,11 @@ for q, e in sorted(table.items()):
     f = F.body_of(fs[0])
     rows, is_open, calls = pins.rows_of(ctx, f)
     e["rows"] = {k: sorted(v) for k, v in sorted(rows.items())}
+    if "effects" in e:
+        eff, eo, ec = pins.effects_of(ctx, f)
+        e["effects"] = eff
+        calls = calls | ec
+        print("        effects: %s%s" % (eff, " OPEN" if eo else ""))
     e["calls"] = sorted(calls)
     print("%s %s" % ("OPEN " if is_open else "     ", q))
     for k, v in sorted(rows.items()):
